@@ -6,6 +6,7 @@ from .. import core, gen
 
 ID = 'C17'
 LEVEL = 'proof'
+FOUNDATIONS = ['harness.foundation.pybody']   # centerComputeI / center / decenter are tied to the current bodies of convolve.py
 RULE = ('corpus; structured random 2-D images with even sides 2..64 (square and not, biased to small sizes and powers of '
         'two) x float32/float64/integer dtypes x seven layouts x preserve_energy on/off x inline on/off x all ten '
         'Daubechies codes x borders {ncoeffs-3, ncoeffs-2, ncoeffs, ncoeffs+1, ncoeffs+5} (and smaller ones); '
